@@ -98,6 +98,7 @@ def fmtEvent (w : World) : Event → String
   | .spawned p c => s!"spawned:{p}:{c}"
   | .watch a t => s!"watch:{a}:{nameOf w t}"
   | .unwatch a t => s!"unwatch:{a}:{nameOf w t}"
+  | .killreq t => s!"killreq:{nameOf w t}"
 
 def spaced (l : List String) : String := "[" ++ " ".intercalate l ++ "]"
 
@@ -261,6 +262,7 @@ def parseEvent (s : String) : Option Event :=
     | ["spawned", p, c] => do let p ← parseName p; let c ← c.toNat?; pure (.spawned p c)
     | ["watch", w, t] => do let w ← w.toNat?; let t ← parseName t; pure (.watch w t)
     | ["unwatch", w, t] => do let w ← w.toNat?; let t ← parseName t; pure (.unwatch w t)
+    | ["killreq", t] => (parseName t).map .killreq
     | _ => none
 
 /-- `[a b c]` given as tokens `[a`, `b`, `c]` -/
@@ -314,7 +316,7 @@ def judgeWith (crashIsBad : Bool) (check : List Event → (Aid → Bool) → (Ai
 def judgeC03 : Suite := judgeWith false fun evs _ _ _ => c03 evs
 def judgeC04 : Suite := judgeWith true fun evs _ _ _ => (c04suspended evs).orElse fun _ => c04directive evs
 def judgeC05 : Suite := judgeWith false fun evs _ gone quiet =>
-  (c05order evs).orElse fun _ => if quiet then c05complete evs gone else none
+  (c05order evs).orElse fun _ => if quiet then (c05complete evs gone).orElse fun _ => c05requests evs gone else none
 def judgeC06 : Suite := judgeWith false fun evs alive gone quiet =>
   ((c06dup evs).orElse fun _ => c06unsolicited evs).orElse fun _ =>
     if quiet then c06missing evs alive gone else none
